@@ -12,6 +12,7 @@ import (
 	"encoding/json"
 	"fmt"
 	"net/netip"
+	"slices"
 	"sort"
 	"strings"
 	"testing"
@@ -38,7 +39,14 @@ func (t ctTuple) packet() firewall.Packet {
 	return firewall.Packet{LocalAddr: t.Local, RemoteAddr: t.Remote, LocalPort: t.LPort, RemotePort: t.RPort, Protocol: t.Proto}
 }
 
-// one firewall rule; Port 0 = any
+// options that change what unchanged rule text means: firewall.default_local_cidr_any and whether the node's
+// certificate has an unsafe network (198.51.100.0/24)
+type ctOpts struct{ any, unsafe bool }
+
+var ctUnsafeNet = netip.MustParsePrefix("198.51.100.0/24")
+var ctUnsafeLocal = netip.MustParseAddr("198.51.100.5")
+
+// one firewall rule; Port 0 = any; an invalid (zero) Local = a rule without local_cidr
 type ctAtom struct {
 	Incoming      bool
 	Proto         string // tcp udp icmp any
@@ -47,7 +55,7 @@ type ctAtom struct {
 }
 
 // what the documentation says such a rule matches (used only to decide which packets a generated rule set allows)
-func (a ctAtom) matches(t ctTuple, incoming bool) bool {
+func (a ctAtom) matches(t ctTuple, incoming bool, o ctOpts) bool {
 	if a.Incoming != incoming {
 		return false
 	}
@@ -76,6 +84,12 @@ func (a ctAtom) matches(t ctTuple, incoming bool) bool {
 	}
 	if t.Proto == firewall.ProtoICMP && a.Port != 0 {
 		return false // a rule with a port never matches ICMP
+	}
+	if !a.Local.IsValid() {
+		// no local_cidr: every local address, unless the certificate has unsafe networks and default_local_cidr_any is off,
+		// then only the node's own vpn networks
+		own := netip.PrefixFrom(ctLocals[0], 24).Masked().Contains(t.Local) || netip.PrefixFrom(ctLocals[1], 24).Masked().Contains(t.Local)
+		return a.Remote.Contains(t.Remote) && (!o.unsafe || o.any || own)
 	}
 	return a.Remote.Contains(t.Remote) && a.Local.Contains(t.Local)
 }
@@ -157,7 +171,7 @@ func ctAtomsFor(rs ctRuleSet, tuples []ctTuple) (atoms []ctAtom, ok bool) {
 		for _, inc := range []bool{false, true} {
 			m := false
 			for _, a := range atoms {
-				m = m || a.matches(tuples[f], inc)
+				m = m || a.matches(tuples[f], inc, ctOpts{})
 			}
 			if m != rs.has(f+1, inc) {
 				return nil, false
@@ -177,15 +191,19 @@ type ctWorld struct {
 	pool  *cert.CAPool
 	nonce int
 	yaml  string
+	opts  ctOpts
 }
 
 var ctLocals = []netip.Addr{netip.MustParseAddr("10.0.0.1"), netip.MustParseAddr("10.0.1.1")}
 var ctPeers = []netip.Addr{netip.MustParseAddr("10.0.0.2"), netip.MustParseAddr("10.0.0.3")}
 
-func ctYAML(unit time.Duration, to [3]int, atoms []ctAtom, nonce int) string {
+func ctYAML(unit time.Duration, to [3]int, atoms []ctAtom, nonce int, o ctOpts) string {
 	var b strings.Builder
 	fmt.Fprintf(&b, "firewall:\n  verif_generation: %d\n  conntrack:\n    tcp_timeout: %s\n    udp_timeout: %s\n    default_timeout: %s\n",
 		nonce, time.Duration(to[0])*unit, time.Duration(to[1])*unit, time.Duration(to[2])*unit)
+	if o.unsafe {
+		fmt.Fprintf(&b, "  default_local_cidr_any: %v\n", o.any)
+	}
 	for _, inc := range []bool{false, true} {
 		name := "outbound"
 		if inc {
@@ -204,7 +222,10 @@ func ctYAML(unit time.Duration, to [3]int, atoms []ctAtom, nonce int) string {
 			if a.Port != 0 {
 				port = fmt.Sprint(a.Port)
 			}
-			fmt.Fprintf(&b, "    - port: %s\n      proto: %s\n      cidr: %s\n      local_cidr: %s\n", port, a.Proto, a.Remote, a.Local)
+			fmt.Fprintf(&b, "    - port: %s\n      proto: %s\n      cidr: %s\n", port, a.Proto, a.Remote)
+			if a.Local.IsValid() {
+				fmt.Fprintf(&b, "      local_cidr: %s\n", a.Local)
+			}
 		}
 		if n == 0 {
 			fmt.Fprintf(&b, "  %s: []\n", name)
@@ -213,11 +234,14 @@ func ctYAML(unit time.Duration, to [3]int, atoms []ctAtom, nonce int) string {
 	return b.String()
 }
 
-func ctNewWorld(unit time.Duration, to [3]int, atoms []ctAtom) *ctWorld {
+func ctNewWorld(unit time.Duration, to [3]int, atoms []ctAtom, o ctOpts) *ctWorld {
 	l := test.NewLogger()
-	w := &ctWorld{unit: unit, to: to, hosts: map[netip.Addr]*HostInfo{}, pool: cert.NewCAPool()}
+	w := &ctWorld{unit: unit, to: to, opts: o, hosts: map[netip.Addr]*HostInfo{}, pool: cert.NewCAPool()}
 	owner := &dummyCert{version: cert.Version2, name: "owner",
 		networks: []netip.Prefix{netip.PrefixFrom(ctLocals[0], 24), netip.PrefixFrom(ctLocals[1], 24)}}
+	if o.unsafe {
+		owner.unsafeNetworks = []netip.Prefix{ctUnsafeNet}
+	}
 	w.pki = &PKI{}
 	w.pki.cs.Store(&CertState{v2Cert: owner, initiatingVersion: cert.Version2})
 	mine := new(bart.Lite)
@@ -231,7 +255,7 @@ func ctNewWorld(unit time.Duration, to [3]int, atoms []ctAtom) *ctWorld {
 		h.buildNetworks(mine, c.Certificate)
 		w.hosts[a] = h
 	}
-	w.yaml = ctYAML(unit, to, atoms, w.nonce)
+	w.yaml = ctYAML(unit, to, atoms, w.nonce, o)
 	w.cfg = config.NewC(l)
 	if err := w.cfg.LoadString(w.yaml); err != nil {
 		panic(err)
@@ -250,7 +274,7 @@ func (w *ctWorld) reload(atoms []ctAtom, bump bool) {
 	if bump {
 		w.nonce++
 	}
-	w.yaml = ctYAML(w.unit, w.to, atoms, w.nonce)
+	w.yaml = ctYAML(w.unit, w.to, atoms, w.nonce, w.opts)
 	if err := w.cfg.ReloadConfigString(w.yaml); err != nil {
 		panic(err)
 	}
@@ -287,6 +311,50 @@ type ctGraphPlan struct {
 	Protos []string `json:"protos"`
 	TO     [3]int   `json:"to"`
 	VerMod int      `json:"verMod"`
+	Maps   []string `json:"maps"` // tuple maps to use (empty: all)
+	Sem    bool     `json:"sem"`  // reloads name a configuration [any, txt]; flow 2 goes to an unsafe-network address
+}
+
+// something a reload can install: rule text, options, and the packets the model says it allows
+type ctInstall struct {
+	atoms   []ctAtom
+	opts    ctOpts
+	allowed ctRuleSet
+}
+
+type ctModelCfg struct {
+	Any bool   `json:"any"`
+	Txt string `json:"txt"`
+}
+
+func ctDecodeCfg(m json.RawMessage) (c ctModelCfg, key string) {
+	if err := json.Unmarshal(m, &c); err != nil {
+		return c, "" // graphs whose reloads name the rule set carry a dummy here
+	}
+	return c, fmt.Sprintf("cfg:%s:%v", c.Txt, c.Any)
+}
+
+// rule texts of the configurations of Conntrack.tla!SemCfgs for the tuple pair of ctSemMap
+func ctSemAtoms(txt string, t ctTuple) []ctAtom {
+	in := ctAtom{Incoming: true, Proto: "udp", Port: int(t.LPort), Remote: netip.PrefixFrom(t.Remote, 32)}
+	out := ctAtom{Incoming: false, Proto: "udp", Port: int(t.RPort), Remote: netip.PrefixFrom(t.Remote, 32)}
+	switch txt {
+	case "i":
+		return []ctAtom{in}
+	case "io":
+		return []ctAtom{in, out}
+	case "iu":
+		in.Local = ctUnsafeNet
+		return []ctAtom{in}
+	}
+	return nil
+}
+
+func ctSemMap() ctMap {
+	a := ctTuple{Local: ctLocals[0], Remote: ctPeers[0], LPort: 1001, RPort: 2001, Proto: firewall.ProtoUDP}
+	b := a
+	b.Local = ctUnsafeLocal
+	return ctMap{name: "unsafe-local", tuples: []ctTuple{a, b}}
 }
 
 type ctMap struct {
@@ -360,18 +428,18 @@ func ctDomain(m json.RawMessage) []int {
 
 // ctRun executes model actions on a real world
 type ctRun struct {
-	w       *ctWorld
-	tuples  []ctTuple
-	atomsOf func(rs ctRuleSet) []ctAtom
+	w      *ctWorld
+	tuples []ctTuple
 }
 
 // reloadModel performs a reload with a changed firewall section; wraps = the model's small version counter wraps at
 // this reload, so the real 16-bit counter is put at 65535 first
-func (r *ctRun) reloadModel(rs ctRuleSet, wraps bool) {
+func (r *ctRun) reloadModel(in ctInstall, wraps bool) {
 	if wraps {
 		r.w.shiftVersions()
 	}
-	r.w.reload(r.atomsOf(rs), true)
+	r.w.opts = in.opts
+	r.w.reload(in.atoms, true)
 }
 
 type ctPlan struct {
@@ -395,16 +463,34 @@ type ctModelState struct {
 	ver      int
 	rules    ctRuleSet
 	conns    []int
+	cfgKey   string
 }
 
 func ctReplayGraph(t *testing.T, res *vResult, g ctGraphPlan, twin bool) {
 	var gr vGraph
 	vReadJSON(t, g.File, &gr)
 	ms := make([]ctModelState, len(gr.States))
+	// everything a reload (or the start) installs in this graph, keyed by rule set or by configuration
 	rulesets := map[string]ctRuleSet{}
+	cfgs := map[string]ctModelCfg{}
+	cfgRules := map[string]ctRuleSet{}
 	for i, s := range gr.States {
 		ms[i] = ctModelState{res: vBool(s["res"]), may: vBool(s["may"]), why: vStr(s["why"]), ver: vInt(s["ver"]), rules: ctDecodeRules(s["rules"]), conns: ctDomain(s["conns"])}
-		rulesets[ms[i].rules.key()] = ms[i].rules
+		if g.Sem {
+			c, k := ctDecodeCfg(s["cfg"])
+			ms[i].cfgKey = k
+			cfgs[k], cfgRules[k] = c, ms[i].rules // rules = EffOf(cfg) in every state
+		} else {
+			ms[i].cfgKey = ms[i].rules.key()
+			rulesets[ms[i].cfgKey] = ms[i].rules
+		}
+	}
+	edgeKey := func(e vEdge) string {
+		if e.Act == "ReloadCfg" {
+			_, k := ctDecodeCfg(e.Args[0])
+			return k
+		}
+		return ctDecodeRules(e.Args[0]).key()
 	}
 	for _, e := range gr.Edges {
 		if e.Act == "Reload" {
@@ -414,24 +500,34 @@ func ctReplayGraph(t *testing.T, res *vResult, g ctGraphPlan, twin bool) {
 	}
 	units := []time.Duration{time.Second, 40 * time.Millisecond}
 	twinDone := map[string]bool{}
-	for _, m := range ctMaps(g.Protos) {
-		// concretise every rule set of the graph; skip the map when the rule language cannot express one of them
-		atoms := map[string][]ctAtom{}
+	maps := ctMaps(g.Protos)
+	if g.Sem {
+		maps = []ctMap{ctSemMap()}
+	}
+	for _, m := range maps {
+		if len(g.Maps) > 0 && !g.Sem && !slices.Contains(g.Maps, m.name) {
+			continue
+		}
+		// concretise everything installable; skip the map when the rule language cannot express it or when the code's
+		// decision on a fresh firewall is not the rule set the model assumes
+		inst := map[string]ctInstall{}
 		usable := true
 		for k, rs := range rulesets {
 			a, ok := ctAtomsFor(rs, m.tuples)
-			if !ok || !ctRulesAgree(units[0], g.TO, a, m.tuples, rs.has) {
-				usable = false
-				break
-			}
-			atoms[k] = a
+			inst[k] = ctInstall{atoms: a, allowed: rs}
+			usable = usable && ok
+		}
+		for k, c := range cfgs {
+			inst[k] = ctInstall{atoms: ctSemAtoms(c.Txt, m.tuples[0]), opts: ctOpts{any: c.Any, unsafe: true}, allowed: cfgRules[k]}
+		}
+		for _, in := range inst {
+			usable = usable && ctRulesAgree(units[0], g.TO, in.atoms, in.opts, m.tuples, in.allowed.has)
 		}
 		if !usable {
 			res.Hit("R:map-skipped:" + m.name)
 			continue
 		}
 		res.Hit("R:map:" + m.name)
-		atomsOf := func(rs ctRuleSet) []ctAtom { return atoms[rs.key()] }
 		for ui, u := range units {
 			if ui > 0 && m.name != "distinct" {
 				continue
@@ -443,16 +539,16 @@ func ctReplayGraph(t *testing.T, res *vResult, g ctGraphPlan, twin bool) {
 				case "Pkt":
 					pass, _ = r.w.drop(r.tuples[vInt(e.Args[0])-1], vBool(e.Args[1]))
 					return true, pass
-				case "Reload":
-					r.reloadModel(ctDecodeRules(e.Args[0]), (ms[e.Src].ver+1)%g.VerMod == 0)
+				case "Reload", "ReloadCfg":
+					r.reloadModel(inst[edgeKey(e)], (ms[e.Src].ver+1)%g.VerMod == 0)
 				default:
 					t.Fatalf("unknown action %s", e.Act)
 				}
 				return false, false
 			}
 			fresh := func() *ctRun {
-				w := ctNewWorld(u, g.TO, atomsOf(ms[gr.Init[0]].rules))
-				return &ctRun{w: w, tuples: m.tuples, atomsOf: atomsOf}
+				in := inst[ms[gr.Init[0]].cfgKey]
+				return &ctRun{w: ctNewWorld(u, g.TO, in.atoms, in.opts), tuples: m.tuples}
 			}
 			prefix := func(tour []int, n int) *ctRun {
 				r := fresh()
@@ -471,7 +567,10 @@ func ctReplayGraph(t *testing.T, res *vResult, g ctGraphPlan, twin bool) {
 					res.Case(fmt.Sprintf("%s/%s/%s/%d", g.File, m.name, u, ei))
 					det := map[string]any{"graph": g.File, "map": m.name, "unit": u.String(), "tour": ti, "step": si, "tour_edges": tour[:si+1],
 						"timeouts_units_tcp_udp_other": g.TO, "tuples": fmt.Sprint(m.tuples), "config": r.w.yaml}
-					if twin && e.Act == "Reload" && ctDecodeRules(e.Args[0]).key() == ms[e.Src].rules.key() {
+					if twin && (e.Act == "Reload" || e.Act == "ReloadCfg") && ms[e.Dst].rules.key() == ms[e.Src].rules.key() {
+						if e.Act == "ReloadCfg" {
+							res.Hit("R:twin-option-flip")
+						}
 						// C19, second sentence: compare the code with itself, just before and just after this reload
 						id := fmt.Sprintf("%s/%d", m.name, ei)
 						if !twinDone[id] && ui == 0 {
@@ -554,10 +653,10 @@ func ctProtoIdx(p string) int {
 
 // ctRulesAgree: on fresh firewalls (empty conntrack) the code's decision for every packet of the map must be the
 // rule set the model assumes; otherwise the concretisation is unusable (rule semantics are C16's subject, not ours)
-func ctRulesAgree(u time.Duration, to [3]int, atoms []ctAtom, tuples []ctTuple, allowed func(f int, inc bool) bool) bool {
+func ctRulesAgree(u time.Duration, to [3]int, atoms []ctAtom, o ctOpts, tuples []ctTuple, allowed func(f int, inc bool) bool) bool {
 	for f := range tuples {
 		for _, inc := range []bool{false, true} {
-			w := ctNewWorld(u, to, atoms)
+			w := ctNewWorld(u, to, atoms, o)
 			pass, _ := w.drop(tuples[f], inc)
 			if pass != allowed(f+1, inc) {
 				return false
@@ -579,12 +678,21 @@ func ctTraces(t *testing.T, res *vResult, plan ctPlan, prop string) {
 		maxTO := max(g.TO[0], g.TO[1], g.TO[2])
 		for n := 0; n < plan.Traces; n++ {
 			unit := []time.Duration{time.Second, 100 * time.Millisecond, time.Minute}[rnd.Intn(3)]
+			// with reloads (C19): the certificate has an unsafe network, some flows go to an address in it, some rules have no
+			// local_cidr, and reloads also flip firewall.default_local_cidr_any with the rule text untouched
+			opts := ctOpts{}
+			if plan.Reloads {
+				opts = ctOpts{unsafe: true, any: rnd.Intn(2) == 0}
+			}
 			// flows: pairwise different tuples from small pools, protocol by flow number
 			var tuples []ctTuple
 			for len(tuples) < plan.Flows {
 				f := len(tuples) + 1
 				proto := []uint8{firewall.ProtoICMP, firewall.ProtoTCP, firewall.ProtoUDP}[f%3]
 				tp := ctTuple{Local: ctLocals[rnd.Intn(2)], Remote: ctPeers[rnd.Intn(2)], LPort: lports[rnd.Intn(2)], RPort: rports[rnd.Intn(2)], Proto: proto}
+				if plan.Reloads && rnd.Intn(3) == 0 {
+					tp.Local = ctUnsafeLocal
+				}
 				dup := false
 				for _, o := range tuples {
 					dup = dup || o == tp
@@ -608,14 +716,23 @@ func ctTraces(t *testing.T, res *vResult, plan ctPlan, prop string) {
 					if rnd.Intn(2) == 0 {
 						a.Local = netip.PrefixFrom(ctLocals[rnd.Intn(2)], 32)
 					}
+					if plan.Reloads {
+						switch rnd.Intn(5) {
+						case 0, 1:
+							a.Local = netip.Prefix{} // no local_cidr
+						case 2:
+							a.Local = ctUnsafeNet
+						}
+					}
 					atoms = append(atoms, a)
 				}
 				return atoms
 			}
 			allowedBy := func(atoms []ctAtom) func(f int, inc bool) bool {
+				o := opts
 				return func(f int, inc bool) bool {
 					for _, a := range atoms {
-						if a.matches(tuples[f-1], inc) {
+						if a.matches(tuples[f-1], inc, o) {
 							return true
 						}
 					}
@@ -635,14 +752,14 @@ func ctTraces(t *testing.T, res *vResult, plan ctPlan, prop string) {
 				return out
 			}
 			atoms := genAtoms()
-			for try := 0; !ctRulesAgree(unit, g.TO, atoms, tuples, allowedBy(atoms)); try++ {
+			for try := 0; !ctRulesAgree(unit, g.TO, atoms, opts, tuples, allowedBy(atoms)); try++ {
 				res.Hit("T:rule-reading-differs")
 				if try > 20 {
 					t.Fatalf("verif: cannot find a rule set on which the code and the harness' reading of the rule language agree")
 				}
 				atoms = genAtoms()
 			}
-			w := ctNewWorld(unit, g.TO, atoms)
+			w := ctNewWorld(unit, g.TO, atoms, opts)
 			tr.Event(map[string]any{"ev": "reset", "rules": rulesOf(atoms)})
 			churn := rnd.Intn(3) // 0: only the focus flow talks, 1: some, 2: much unrelated traffic
 			focus := 1 + rnd.Intn(len(tuples))
@@ -677,7 +794,16 @@ func ctTraces(t *testing.T, res *vResult, plan ctPlan, prop string) {
 					tr.Event(map[string]any{"ev": "Sleep", "d": d})
 				}
 				if plan.Reloads && rnd.Intn(6) == 0 {
-					switch rnd.Intn(4) {
+					switch rnd.Intn(6) {
+					case 4, 5: // only default_local_cidr_any changes, the rule list is byte-identical
+						opts.any = !opts.any
+						if ctRulesAgree(unit, g.TO, atoms, opts, tuples, allowedBy(atoms)) {
+							w.opts = opts
+							w.reload(atoms, false)
+							res.Hit("T:Reload-option-flip")
+						} else {
+							opts.any = !opts.any
+						}
 					case 0: // unchanged section: no-op reload
 						w.reload(atoms, false)
 						res.Hit("T:Reload-noop")
@@ -686,7 +812,7 @@ func ctTraces(t *testing.T, res *vResult, plan ctPlan, prop string) {
 						res.Hit("T:Reload-same")
 					default:
 						na := genAtoms()
-						if ctRulesAgree(unit, g.TO, na, tuples, allowedBy(na)) {
+						if ctRulesAgree(unit, g.TO, na, opts, tuples, allowedBy(na)) {
 							atoms = na
 							if rnd.Intn(8) == 0 {
 								w.shiftVersions()
